@@ -103,7 +103,7 @@ func firstDiff(a, b string) string {
 }
 
 func runC07(r *rep.Report, thorough bool) error {
-	r.Rule = "every target generated K times in this process (fresh analysis each time) and once in each of P separate processes, sha256 per output file and the set of file names compared; programs from the synthesiser (general + sql-flavoured) plus hand-written programs whose types come from three and more packages, so that map iteration orders actually differ. non-trivial = program references at least two imported packages"
+	r.Rule = "every target generated K times in this process (fresh analysis each time), again after each of R fresh loads of the same sources in this process, and once in each of P separate processes, sha256 per output file and the set of file names compared; programs from the synthesiser (general + sql-flavoured) plus hand-written programs whose types come from three and more packages, so that map iteration orders actually differ. non-trivial = program references at least two imported packages"
 	K, P := 8, 3
 	if thorough {
 		K, P = 40, 8
@@ -150,6 +150,46 @@ func runC07(r *rep.Report, thorough bool) error {
 			}
 		}
 		r.HistN("in_process_generations", K)
+	}
+	// the same sources loaded again in this process: fresh go/types objects and token positions,
+	// same package paths — anything remembered from the first load, or derived from the order in
+	// which the files happened to be parsed, shows here
+	R := 2
+	if thorough {
+		R = 8
+	}
+	for k := 0; k < R; k++ {
+		l2, err := l.Reload(cases)
+		if err != nil {
+			return err
+		}
+		for _, c := range cases {
+			base := ref[c.ID]
+			again, texts := generateAll(l2, c)
+			var ks []string
+			for x := range base {
+				ks = append(ks, x)
+			}
+			for x := range again {
+				if _, ok := base[x]; !ok {
+					ks = append(ks, x)
+				}
+			}
+			sort.Strings(ks)
+			for _, x := range ks {
+				if base[x] != again[x] {
+					tg := strings.SplitN(strings.SplitN(x, "/", 2)[0], "#", 2)[0]
+					_, baseTexts := map[string]string{}, map[string]string{}
+					if texts[x] != "" {
+						_, baseTexts = generateAll(l, c)
+					}
+					r.Fail(rep.Failure{Signature: "c07:nondeterminism-after-reload:" + tg, What: "the same sources loaded and generated a second time in one process give different output for " + x + " (" + firstDiff(baseTexts[x], texts[x]) + ")",
+						Input: map[string]any{"case": c.ID, "output": x, "sources": c.Sources()}, Expected: baseTexts[x], Observed: texts[x]})
+					break
+				}
+			}
+		}
+		r.Hist("reloads_in_process")
 	}
 	// separate processes
 	self, _ := os.Executable()
